@@ -23,6 +23,13 @@ MutFacts.lean:
                      attribute of `self` in Assign / Delete outside __init__ (spec objects must be
                      immutable at evaluation time: expected empty)
   specInitAttrs    : (class, attribute) assigned in Assign.__init__ / Delete.__init__
+  sFirstItem       : (op, op') — mutation._s_first_item re-spells the FIRST step of an S-rooted
+                     destination written with `op` as `op'` (S.a / Path(S, 'a') -> S['a'], mirroring
+                     core._s_first_magic, which *reads* S.a as scope['a']); [] when the helper is
+                     missing or has another shape
+  sFirstItemCallers: the classes among Assign / Delete whose __init__ passes the path through
+                     `_s_first_item` before it is split into parent path and final (op, arg)
+  sFirstMagicOps   : the first-step ops core._t_eval hands to _s_first_magic (which does scope[key])
 """
 import ast
 
@@ -139,11 +146,69 @@ def _final_ops(init, P):
     return ''
 
 
+def _s_first_item(mut, core, find_def, P):
+    """([(op, op')], [caller classes], [ops of the reading-side magic])"""
+    table, callers, magic = [], [], []
+    fn = find_def(mut, '_s_first_item')
+    if fn is None:
+        P.add('mutation._s_first_item not found (the first step of an S-rooted destination is not re-spelled)')
+    else:
+        try:
+            body = [b for b in fn.body if not (isinstance(b, ast.Expr) and isinstance(b.value, ast.Constant))]
+            assert _src(body[0]) == 'ops = path.path_t.__ops__'
+            iff = body[1]
+            assert isinstance(iff, ast.If) and isinstance(iff.test, ast.BoolOp) and isinstance(iff.test.op, ast.And)
+            conds = iff.test.values
+            assert _src(conds[0]) == 'ops[0] is S' and _src(conds[1]) == 'len(ops) > 1'
+            cmp_ = conds[2]
+            assert (isinstance(cmp_, ast.Compare) and _src(cmp_.left) == 'ops[1]' and len(cmp_.ops) == 1
+                    and isinstance(cmp_.ops[0], ast.In) and isinstance(cmp_.comparators[0], ast.Tuple))
+            ops = [e.value for e in cmp_.comparators[0].elts]
+            first = iff.body[0]
+            # `t = S[ops[2]]`: an item step on S with the same argument
+            assert isinstance(first, ast.Assign) and _src(first.targets[0]) == 't'
+            assert isinstance(first.value, ast.Subscript) and _src(first.value.value) == 'S'
+            assert _src(first.value.slice) == 'ops[2]'
+            rest = '\n'.join(_src(b) for b in iff.body[1:])
+            assert rest == ('for i in range(3, len(ops), 2):\n    t = _t_child(t, ops[i], ops[i + 1])\n'
+                            'return Path(t)')
+            assert not iff.orelse and _src(body[2]) == 'return path' and len(body) == 3
+            table = [(o, '[') for o in ops]
+        except (AssertionError, IndexError, AttributeError):
+            P.add('mutation._s_first_item has an unrecognised shape')
+            table = []
+    for cname in ('Assign', 'Delete'):
+        init = find_def(mut, '__init__', cls=cname)
+        if init is None:
+            continue
+        seen = False
+        for st in init.body:
+            if _src(st) == 'path = _s_first_item(path)':
+                seen = True
+            if isinstance(st, ast.Try) and 'path.items()[-1]' in _src(st):
+                if seen:
+                    callers.append(cname)
+                break
+    tev = find_def(core, '_t_eval')
+    if tev is not None:
+        for n in ast.walk(tev):
+            if (isinstance(n, ast.If) and isinstance(n.test, ast.BoolOp) and n.body
+                    and '_s_first_magic' in _src(n.body[0])):
+                for v in n.test.values:
+                    if (isinstance(v, ast.Compare) and _src(v.left) == 't_path[1]' and isinstance(v.ops[0], ast.In)
+                            and isinstance(v.comparators[0], ast.Tuple)):
+                        magic = [e.value for e in v.comparators[0].elts]
+    if not magic:
+        P.add('_t_eval: the `_s_first_magic` branch (first step of an S-rooted path) not found')
+    return table, callers, magic
+
+
 def extract(ctx):
     P = ctx['P']
     core = ctx['src_tree']('core.py')
     mut = ctx['src_tree']('mutation.py')
     find_def = ctx['find_def']
+    s_first, s_first_callers, s_magic = _s_first_item(mut, core, find_def, P)
 
     a_op = find_def(core, '_assign_op')
     a_br, _ = _branches(a_op, 'assign', ctx, P) if a_op else ([], [])
@@ -256,6 +321,9 @@ def extract(ctx):
         ('starsShape', 'String', stars),
         ('specSelfWrites', 'List (String × String × String)', self_writes),
         ('specInitAttrs', 'List (String × String)', init_attrs),
+        ('sFirstItem', 'List (String × String)', s_first),
+        ('sFirstItemCallers', 'List String', s_first_callers),
+        ('sFirstMagicOps', 'List String', s_magic),
     ]
     return [('MutFacts',
              'branches of _assign_op and Delete._del_one with the exception classes each catches; '
